@@ -147,6 +147,58 @@ def stage_detect(sc: Dict[str, Any]) -> Dict[str, str]:
     return out
 
 
+def _pipeline_probes(data: Dict[str, Any], sc: Dict[str, Any]) -> List[str]:
+    """ which of the situations the pipeline scenarios are meant to produce this one did produce (reach probes
+        of the batch; taken from the first schedule only, never compared) """
+    found = set()
+    spanning = {gene["name"] for record in sc["records"] for gene in record["genes"] if len(gene["parts"]) == 2}
+    for record in data.get("records", []):
+        modules = record.get("modules", {})
+        areas = record.get("areas", [])
+        if len(data.get("records", [])) > 1:
+            found.add("multi_record_input")
+        if any(area["start"] > area["end"] for area in areas):
+            found.add("origin_crossing_region")
+        if spanning and areas:
+            found.add("origin_spanning_gene_with_regions")
+        rules = modules.get("antismash.detection.hmm_detection", {}).get("rule_results", {})
+        if len(rules.get("outside_protoclusters", [])) >= 2:
+            found.add("genes_with_hits_outside_protoclusters")
+        if any(len(cdses) >= 2 for by_cds in rules.get("cds_by_protocluster", []) for cdses in by_cds[1:]):
+            found.add("protocluster_with_2_defining_genes")
+        domains = modules.get("antismash.detection.nrps_pks_domains", {}).get("cds_results", {})
+        if any(cds.get("modules") for cds in domains.values()):
+            found.add("nrps_pks_modules")
+        side = modules.get("antismash.detection.sideloader", {})
+        if side.get("subregions") or side.get("protoclusters"):
+            found.add("sideloaded_areas")
+        for name in ("cluster_hmmer", "full_hmmer", "tigrfam"):
+            if modules.get(f"antismash.detection.{name}", {}).get("hits"):
+                found.add(f"{name}_hits")
+        if modules.get("antismash.modules.pfam2go", {}).get("pfams"):
+            found.add("pfam2go_terms")
+        tools = modules.get("antismash.detection.genefunctions", {}).get("tools", {})
+        if sum(1 for tool in tools.values() if tool.get("best_hits")) >= 2:
+            found.add("gene_functions_from_2_tools")
+        for prediction in modules.get("antismash.modules.t2pks", {}).get("protocluster_predictions", {}).values():
+            found.add("t2pks_prediction")
+            kinds = {pred[0] for preds in prediction.get("cds_preds", {}).values() for pred in preds}
+            if prediction.get("mol_weights") and len(kinds - {"KS", "CLF", "ACP"}) >= 3:
+                found.add("t2pks_weights_with_3_tailoring_kinds")
+        terpene = json.dumps(modules.get("antismash.modules.terpene", {}))
+        if '"subtypes": [' in terpene and any(len(pred.get("subtypes", [])) >= 2 for cluster in
+                                              modules.get("antismash.modules.terpene", {}).get("protocluster_predictions", {}).values()
+                                              for preds in cluster.get("cds_predictions", {}).values() for pred in preds):
+            found.add("terpene_domain_with_2_subtypes")
+        if modules.get("antismash.modules.rrefinder", {}).get("hits_by_cds"):
+            found.add("rre_hits")
+        if any(modules.get("antismash.modules.tfbs_finder", {}).get("hits_by_region", {}).values()):
+            found.add("tfbs_hits")
+        if modules.get("antismash.modules.tta", {}).get("TTA codons"):
+            found.add("tta_codons")
+    return sorted(found)
+
+
 def stage_pipeline(sc: Dict[str, Any], salt: int) -> Dict[str, str]:
     from sim.world import pipeline as P
     work = P.scratch_dir("c17_")
@@ -178,6 +230,7 @@ def stage_pipeline(sc: Dict[str, Any], salt: int) -> Dict[str, str]:
                 data = json.loads(entry["content"])
                 data.pop("timings", None)
                 out[f"file:{name}"] = json.dumps(data, indent=1)
+                out["_probes"] = json.dumps(_pipeline_probes(data, sc))
             else:
                 out[f"file:{name}"] = entry["content"]
         return out
@@ -259,7 +312,7 @@ def _batch_chunk(args: Any) -> List[Any]:
         texts = safe_process(scenario, salt)
         out.append([i, digest(json.dumps(scenario, sort_keys=True)), salt,
                     {name: digest(text) for name, text in texts.items() if not name.startswith("_")},
-                    texts.get("_traceback"), texts.get("status")])
+                    texts.get("_traceback"), texts.get("status"), json.loads(texts.get("_probes", "[]"))])
     return out
 
 
